@@ -183,6 +183,9 @@ theorem sim_step (o : Ops V) (op : Op V) (hok : OpOK n op) :
   | fnVoid f inp out => unfold step; exact sim_fnVoidOp o f inp _
   | scalarK k inp arg out => unfold step; sim_auto
   | aggFn f inp => unfold step; sim_auto
+  | absCurv => unfold step; exact sim_bind (sim_absCurvOp o) (fun _ _ => sim_pure _ trivial)
+  | estSpeed => unfold step; exact sim_bind (sim_estSpeedOp o) (fun _ _ => sim_pure _ trivial)
+  | segment inp out thr => unfold step; exact sim_bind (sim_segmentOp o inp out thr) (fun _ _ => sim_pure _ trivial)
   | expr rpn => unfold step; exact sim_operateStr o rpn
 
 end TV.Features
